@@ -204,7 +204,9 @@ int main(int argc, char * argv[], char * envp[])
   catch (const error_count& errors) {
     // used for a "quick" exit, and is used only if help text (such as
     // --help) was displayed
-    status = static_cast<int>(errors.count);
+    // the operating system keeps the low 8 bits only: a count that is a
+    // multiple of 256 must not read as success
+    status = errors.count > 255 ? 255 : static_cast<int>(errors.count);
   }
 
   // If memory verification is being performed (which can be very slow), clean
